@@ -73,6 +73,21 @@ impl<'s> Serializer for SimSer<'s> {
             None => Ok(()),
         }
     }
+    /// serde's default `collect_str` builds a `String`; a serializer that must not allocate
+    /// renders the value piece by piece instead (into the attached sink, or nowhere)
+    fn collect_str<T: ?Sized + fmt::Display>(self, value: &T) -> Result<(), NoAllocError> {
+        use std::fmt::Write as _;
+        struct Null;
+        impl fmt::Write for Null {
+            fn write_str(&mut self, _s: &str) -> fmt::Result {
+                Ok(())
+            }
+        }
+        match self.sink {
+            Some(s) => write!(s, "{}", value).map_err(|_| NoAllocError),
+            None => write!(Null, "{}", value).map_err(|_| NoAllocError),
+        }
+    }
     fn serialize_none(self) -> Result<(), NoAllocError> {
         Ok(())
     }
